@@ -361,8 +361,15 @@ class _Walker:
 
     def _effect(self, st, env, effects, skip_targets=False):
         s2 = subst(st, {k: v for k, v in env.items()}) if not skip_targets else self._subst_values_only(st, env)
+        muts = _mutated_bases(st) | self._call_mutated(st)
+        # a local computed from an object BEFORE that object is mutated keeps its value: it can no longer be replaced by its
+        # defining expression (which would now read the mutated object), so its binding is recorded as an effect of its own and
+        # the name stays
+        for k in [k for k, v in env.items() if k not in muts and any(isinstance(n, ast.Name) and n.id in muts for n in ast.walk(v))]:
+            effects.append(ast.fix_missing_locations(ast.copy_location(
+                ast.Assign(targets=[ast.Name(id=k, ctx=ast.Store())], value=env.pop(k)), st)))
         effects.append(s2)
-        for b in _mutated_bases(st) | self._call_mutated(st):
+        for b in muts:
             env.pop(b, None)
 
     @staticmethod
@@ -594,6 +601,35 @@ def find(pattern: str, root: ast.AST, binds=None) -> List[Tuple[ast.AST, Dict[st
         if r is not None:
             out.append((n, r))
     return out
+
+
+def thaw(outs: Sequence[Outcome]) -> List[Outcome]:
+    """Outcomes with the frozen locals (bindings kept as effects because an object they were computed from was mutated
+    later) written out again in path conditions and values: the condition `flag` reads as the expression `flag` was bound to,
+    evaluated where it was bound."""
+    res = []
+    for o in outs:
+        frozen = {e.targets[0].id: e.value for e in o.effects
+                  if isinstance(e, ast.Assign) and len(e.targets) == 1 and isinstance(e.targets[0], ast.Name)}
+        if not frozen:
+            res.append(o)
+            continue
+        conds = _norm_conds([(subst(c, frozen), pol) for c, pol in o.conds])
+        val = subst(o.value, frozen) if o.value is not None else None
+        res.append(Outcome(o.kind, val, conds, o.stmt, o.env, o.loops, o.effects))
+    return res
+
+
+def value_of(o: Outcome, name: str) -> Optional[ast.expr]:
+    """The value local ``name`` holds at the end of the path: its substituted definition, or — when it had to be frozen
+    because an object it was computed from was mutated afterwards — the value recorded with that binding."""
+    v = o.env.get(name)
+    if v is not None:
+        return v
+    for e in reversed(o.effects):
+        if isinstance(e, ast.Assign) and len(e.targets) == 1 and isinstance(e.targets[0], ast.Name) and e.targets[0].id == name:
+            return e.value
+    return None
 
 
 def eval_under(outs: Sequence[Outcome], facts: Dict[str, bool], kinds: Sequence[str] = ("return", "raise", "yield", "yield_from", "fall")):
